@@ -79,6 +79,8 @@ def check(m, run):
     skel_drivers.c03_order(m, run)
     from .. import rules_state as rs
     rs.iv4_deepcopy(m, run)
+    from . import c17 as _c17
+    _c17.domain_getter(m, run)      # the split guards compare the parameter with the ends of the domain the getter reports (DG2, shared with C17)
 
 
 def rv1(m, run):
